@@ -66,7 +66,7 @@ def build_groups(ctx: Ctx):
         groups.append((rt.make_cfg(rules, strict, merge, True, bind), False, cases))
     # (e) adapter creation as a dimension: Map.bind_to_environ(environ[, server_name[, subdomain]]) with SCRIPT_NAME /
     #     PATH_INFO / QUERY_STRING / HTTP_HOST as a WSGI server gives them; non-ASCII / spaced / percent script roots
-    envb = rt.ENV_BINDS if not q else rng.sample(rt.ENV_BINDS, 7)
+    envb = (rt.ENV_BINDS if not q else rng.sample(rt.ENV_BINDS, 7)) + rt.PCT_BINDS
     for bind in envb:
         for _ in range(2 if q else 14):
             kind = rng.random()
